@@ -1425,9 +1425,11 @@ def _str_format_impl(ctx: CallContext) -> Value:
         _, message = errors[0]
         ctx.show_error(message, error_code=ErrorCode.incompatible_call)
         return TypedValue(str)
+    uses_automatic_numbering = uses_manual_numbering = False
     for field in parsed.iter_replacement_fields():
         # TODO validate conversion specifiers, attributes, etc.
         if field.arg_name is None:
+            uses_automatic_numbering = True
             if current_index >= len(args):
                 ctx.show_error(
                     "Too few arguments to format string (expected at least"
@@ -1437,6 +1439,7 @@ def _str_format_impl(ctx: CallContext) -> Value:
             used_indices.add(current_index)
             current_index += 1
         elif isinstance(field.arg_name, int):
+            uses_manual_numbering = True
             index = field.arg_name
             if index >= len(args):
                 ctx.show_error(
@@ -1451,6 +1454,12 @@ def _str_format_impl(ctx: CallContext) -> Value:
                     error_code=ErrorCode.incompatible_call,
                 )
             used_kwargs.add(field.arg_name)
+    if uses_automatic_numbering and uses_manual_numbering:
+        ctx.show_error(
+            "Format string cannot switch between automatic field numbering and"
+            " manual field specification",
+            error_code=ErrorCode.incompatible_call,
+        )
     # Skip these checks in unions because the arguments may be used in a
     # different branch of the union. Ideally we'd error if they are unused
     # in all variants, but that's difficult to achieve with the current
